@@ -123,6 +123,9 @@ def _recipes(fn):
 
 def run(ctx):
     rep = ctx.report
+    from ..typestate import check_functions as _rowbuffers
+    rep.rule('R7.6', 'output rows are assembled in a container that is created anew (or emptied) between two deliveries: no cell of one output row is carried into the next (row-buffer typestate)')
+    ctx.floor('row_buffer_generators', _rowbuffers(ctx, rep, 'R7.6', ctx.functions(['petl.transform.hashjoins', 'petl.transform.joins'])), 8)
     rep.explanation = (
         'Decides agreement of structure between the hash joins and the sort-merge joins and among the lookup builders: '
         '(R7.1) the six join iterators (iterjoin, iterlookupjoin, iterhashjoin, iterhashleftjoin, iterhashrightjoin, '
